@@ -94,7 +94,7 @@ PROPS = {
         "assumptions": ["journals with two prices for one commodity pair on one day are not generated (excluded by the property)"],
     },
     "C03": {
-        "lean": ["Knut.Properties.C03", "Knut.Properties.C03Bound", "Knut.Properties.C03Bridge", "Knut.Properties.C03Window", "Knut.Properties.C03Report", "Knut.Properties.C03Command", "Knut.Properties.C03Modes", "Knut.FactsAgree.TransProcess"],
+        "lean": ["Knut.Properties.C03", "Knut.Properties.C03Bound", "Knut.Properties.C03Bridge", "Knut.Properties.C03Window", "Knut.Properties.C03Report", "Knut.Properties.C03Command", "Knut.Properties.C03Modes", "Knut.Properties.C03Flows", "Knut.FactsAgree.TransProcess"],
         "level": "proof",
         "claim": "Proof + full correspondence + exact monitors. Spec.mtm (Spec/MTM.lean) = sum over commodities of summed quantity x Prices.normalize price of the declarations up to D, exact. "
                  "Proved from the directives to the CELLS of the rendered table (C03_command_cell, Properties/C03Report.lean): for every cumulative valued report with per-account rows (no -m/--remap/filters/-s/--diff), "
